@@ -268,9 +268,7 @@ func (fr *Frame) argTerm(a ssa.Value) Term {
 func (vc *VC) addrTerm(lv *LVal) string {
 	if !vc.declared["faddr"] {
 		vc.declared["faddr"] = true
-		vc.decls = append(vc.decls, "(declare-fun faddr (Int Int) Int)", "(declare-fun gaddr (Int) Int)", "(declare-fun iaddr (Int Int) Int)",
-			"(assert (forall ((a Int) (b Int)) (! (> (faddr a b) 0) :pattern ((faddr a b)))))",
-			"(assert (forall ((a Int)) (! (> (gaddr a) 0) :pattern ((gaddr a)))))")
+		vc.decls = append(vc.decls, "(declare-fun faddr (Int Int) Int)", "(declare-fun gaddr (Int) Int)", "(declare-fun iaddr (Int Int) Int)")
 	}
 	var base string
 	if lv.Ref == "" {
@@ -309,7 +307,42 @@ func (fr *Frame) execCall(ins *ssa.Call, st *State) {
 	fr.bindResults(ins, res)
 }
 
+// recordCallRet names call results so that known-finding regions can refer to them.
+func (fr *Frame) recordCallRet(cc *ssa.CallCommon, res []Term) {
+	if len(res) == 0 {
+		return
+	}
+	top := fr.vc.topFrame
+	if top == nil {
+		return
+	}
+	if top.callRets == nil {
+		top.callRets = map[string]Term{}
+		top.callCnt = map[string]int{}
+		top.callReach = map[string]string{}
+	}
+	name := ""
+	if cc.IsInvoke() {
+		name = cc.Method.Name()
+		if u, ok := cc.Value.(*ssa.UnOp); ok {
+			if fa, ok := u.X.(*ssa.FieldAddr); ok {
+				name = fieldName(fa.X.Type().Underlying().(*types.Pointer).Elem(), fa.Field) + "_" + name
+			}
+		}
+	} else if f, ok := cc.Value.(*ssa.Function); ok {
+		name = f.Name()
+	}
+	if name == "" {
+		return
+	}
+	k := top.callCnt[name]
+	top.callCnt[name] = k + 1
+	top.callRets[fmt.Sprintf("%s_%d", name, k)] = res[len(res)-1]
+	top.callReach[fmt.Sprintf("%s_%d", name, k)] = fr.curReach
+}
+
 func (fr *Frame) bindResults(ins *ssa.Call, res []Term) {
+	fr.recordCallRet(ins.Common(), res)
 	sig := ins.Common().Signature()
 	switch sig.Results().Len() {
 	case 0:
